@@ -242,6 +242,7 @@ def oracle(ctx):
     parameterless_operator_probe(ctx)
     autodetected_hermitian_leaf_probe(ctx)
     nested_backward_options_probe(ctx)
+    ignored_M_probe(ctx)
 
 
 def operator_reuse_probe(ctx):
@@ -652,6 +653,41 @@ def nested_backward_options_probe(ctx):
     if not max(rel) <= 1e-6:
         ctx.fail("oracle", "solvegrad:nested-backward-options", {"operator": "matrix-free, skew-symmetric + 0.05 I, 8x8", "bck_options": {"method": "custom_exactsolve"}},
                  {"relative_deviation [dA, dB, d2A, d2B]": rel}, "<= 1e-6 against torch.linalg.solve")
+
+
+def ignored_M_probe(ctx):
+    """solve(A, B, M=M) WITHOUT E is documented ("If E is None, then this argument is ignored"): X = A^-1 B, the gradients w.r.t. A and B
+    are those of that map and the tensors of M receive no (or a zero) gradient - for the direct and the implicit backward alike
+    (finding F46: the implicit backward returned one gradient slot too few and autograd raised)"""
+    import xitorch as xt
+    from xitorch.linalg import solve
+    g = torch.Generator().manual_seed(ctx.seed + 103)
+    n = 4
+    A0 = torch.randn(n, n, dtype=DT, generator=g) * 0.3 + 3.0 * torch.eye(n, dtype=DT)
+    Mh = torch.randn(n, n, dtype=DT, generator=g)
+    M0 = Mh @ Mh.T + n * torch.eye(n, dtype=DT)
+    B0 = torch.randn(n, 2, dtype=DT, generator=g)
+    for meth in ("exactsolve", "custom_exactsolve", "bicgstab", "cg"):
+        A = A0.clone().requires_grad_()
+        Mm = M0.clone().requires_grad_()
+        B = B0.clone().requires_grad_()
+        kw = {"rtol": 1e-12, "atol": 1e-14, "bck_options": {"rtol": 1e-12, "atol": 1e-14}} if meth in ("bicgstab", "cg") else {}
+        ctx.count(("M-without-E", meth), nontrivial=True)
+        try:
+            with warnings.catch_warnings():
+                warnings.simplefilter("ignore")
+                X = solve(xt.LinearOperator.m(A, is_hermitian=False), B, M=xt.LinearOperator.m(Mm, is_hermitian=True), method=meth, **kw)
+                gA, gB, gM = torch.autograd.grad((X * X).sum(), (A, B, Mm), allow_unused=True)
+        except Exception as e:
+            ctx.fail("oracle", "solvegrad:M-without-E:exception", {"method": meth}, repr(e)[:300], "gradients w.r.t. A and B, none for M")
+            continue
+        A1 = A0.clone().requires_grad_()
+        B1 = B0.clone().requires_grad_()
+        Xr = torch.linalg.solve(A1, B1)
+        rA, rB = torch.autograd.grad((Xr * Xr).sum(), (A1, B1))
+        err = max(float((gA - rA).abs().max()), float((gB - rB).abs().max()), 0.0 if gM is None else float(gM.abs().max()))
+        if not err <= 1e-7:
+            ctx.fail("oracle", "solvegrad:M-without-E:value", {"method": meth}, err, "<= 1e-7 (and no gradient for M)")
 
 
 def search(ctx):
